@@ -34,22 +34,22 @@ import (
 )
 
 type e2eSettings struct {
-	Model      string `json:"model"` // lepton3 | lepton3.5 | boson
-	ResX       int    `json:"res_x"`
-	ResY       int    `json:"res_y"`
-	FPS        int    `json:"fps"`
-	Serial     int    `json:"serial"`
-	Firmware   string `json:"firmware"`
-	Min        int    `json:"min_secs"`
-	Max        int    `json:"max_secs"`
-	Preview    int    `json:"preview_secs"`
-	Trigger    int    `json:"trigger_frames"` // -1: leave the camera-model default
-	Throttle   bool   `json:"throttle"`
-	BucketSecs int    `json:"bucket_secs"`
-	Constant   bool   `json:"constant_recorder"`
-	ModelMotionDefaults bool `json:"model_motion_defaults"` // do not override detection thresholds in config.toml
-	DeviceName string `json:"device_name"`
-	DeviceID   int    `json:"device_id"`
+	Model               string `json:"model"` // lepton3 | lepton3.5 | boson
+	ResX                int    `json:"res_x"`
+	ResY                int    `json:"res_y"`
+	FPS                 int    `json:"fps"`
+	Serial              int    `json:"serial"`
+	Firmware            string `json:"firmware"`
+	Min                 int    `json:"min_secs"`
+	Max                 int    `json:"max_secs"`
+	Preview             int    `json:"preview_secs"`
+	Trigger             int    `json:"trigger_frames"` // -1: leave the camera-model default
+	Throttle            bool   `json:"throttle"`
+	BucketSecs          int    `json:"bucket_secs"`
+	Constant            bool   `json:"constant_recorder"`
+	ModelMotionDefaults bool   `json:"model_motion_defaults"` // do not override detection thresholds in config.toml
+	DeviceName          string `json:"device_name"`
+	DeviceID            int    `json:"device_id"`
 }
 
 func (s e2eSettings) frameSize() int {
@@ -212,9 +212,9 @@ func (c *memConn) SetWriteDeadline(t time.Time) error { return nil }
 // ---- stream items
 
 type e2eItem struct {
-	Clear bool            // the 5-byte marker
+	Clear bool             // the 5-byte marker
 	Frame *cptvframe.Frame // else a frame
-	Bad   bool            // frame with a zero pixel inside the border
+	Bad   bool             // frame with a zero pixel inside the border
 }
 
 // ---- reference run: a real MotionProcessor driven directly
@@ -343,6 +343,52 @@ func (s e2eSettings) runHandleConn(data []byte, cuts map[int]bool, oneByte bool)
 	}
 	sort.Slice(res.files, func(i, j int) bool { return filepath.Base(res.files[i]) < filepath.Base(res.files[j]) })
 	return res, conn
+}
+
+// runHandleConnTwice serves two connections to the same daemon instance (one *Config, as runMain
+// does): the camera reconnects, possibly as a different model. Returns the files of the second connection.
+func runHandleConnTwice(s1, s2 e2eSettings, d1, d2 []byte) (res e2eResult) {
+	base, err := os.MkdirTemp("", "e2e2-")
+	if err != nil {
+		panic(err)
+	}
+	confDir, outDir := filepath.Join(base, "conf"), filepath.Join(base, "out")
+	os.MkdirAll(confDir, 0o755)
+	os.MkdirAll(outDir, 0o755)
+	s1.writeConfig(confDir, outDir)
+	conf, err := ParseConfig(confDir)
+	if err != nil {
+		panic(err)
+	}
+	vos.Reset()
+	vtime.Reset()
+	frameLogIntervalFirstMin, frameLogInterval = frameLogIntervalFirstMin0, frameLogInterval0
+	processor, headerInfo = nil, nil
+	res.dir = base
+	before := map[string]bool{}
+	func() {
+		defer func() {
+			if p := recover(); p != nil {
+				res.err = fmt.Errorf("handleConn panicked: %v", p)
+			}
+		}()
+		if err := handleConn(&memConn{data: d1}, conf); err != io.EOF {
+			res.err = fmt.Errorf("first connection: %v", err)
+			return
+		}
+		for _, rel := range listTree(outDir) {
+			before[rel] = true
+		}
+		res.err = handleConn(&memConn{data: d2}, conf)
+	}()
+	vos.CloseAll()
+	for _, rel := range listTree(outDir) {
+		if suffixClass(rel) == ".cptv" && !before[rel] {
+			res.files = append(res.files, filepath.Join(outDir, rel))
+		}
+	}
+	sort.Slice(res.files, func(i, j int) bool { return filepath.Base(res.files[i]) < filepath.Base(res.files[j]) })
+	return res
 }
 
 // compareWithReference checks the files against the predicted recordings.
